@@ -131,6 +131,11 @@ pub fn coerce(e: Expr) -> datafusion_common::Result<Expr> {
     ExprSimplifier::new(simplify_context()).coerce(e, df_schema().as_ref())
 }
 
+/// Type coercion against another schema (encoding variants of the columns).
+pub fn coerce_with(e: Expr, sch: &DFSchemaRef) -> datafusion_common::Result<Expr> {
+    ExprSimplifier::new(SimplifyContext::builder().with_schema(sch.clone()).build()).coerce(e, sch.as_ref())
+}
+
 pub fn plan(e: &Expr) -> datafusion_common::Result<Arc<dyn PhysicalExpr>> {
     create_physical_expr(e, df_schema().as_ref(), &ExecutionProps::new(), &PhysicalPlanningContext::default())
 }
